@@ -30,7 +30,8 @@ func checkC03(c *Ctx) {
 	r := c.R
 	r.Decides = append(r.Decides,
 		"K1 in the call-graph closure of every decode entry point, every exported read-only method/helper of decoded values and the raw-frame reader, each panic-capable instruction (index, slice, slice-to-array, single-value type assertion, explicit panic, integer division, negative make/Lexer/Repeat size, nil-map store, use of a maybe-nil result) is closed by a discharge rule (D0 compiler prove pass, D1–D9) or a ledger entry whose guard facts are re-checked",
-		"K2 termination: every loop in the closure is a range loop, a Lexer loop making progress, or a counter loop; recursion cycles belong to the frozen, argued set")
+		"K2 termination: every loop in the closure is a range loop, a Lexer loop making progress, or a counter loop; recursion cycles belong to the frozen, argued set",
+		"C09-K4 (shared) no encoder serialises the same sub-value (or the elements of the same collection) twice on one path: re-encoding is not exponential in the nesting depth")
 	r.NotDecided = append(r.NotDecided, "nil dereference through pointer fields the decoders always set (assumed)", "panics inside external code called within its modelled contract",
 		"stack exhaustion, out-of-memory", "data-dependent non-termination inside ledgered loops")
 	e, err := newE4(c, "C03-K1")
@@ -56,6 +57,9 @@ func checkC03(c *Ctx) {
 		c18Reader(c, rf, "C03")
 	}
 	e7Loops(c, "C03-K2", funcs)
+	// "re-encoding returns normally": an encoder that serialises a sub-value twice per nesting level does not
+	// return in any useful time for a deeply nested accepted datagram (shared with C09-K4)
+	c09Encoders(c)
 	r.Assume("pointer fields of decoded structures are non-nil unless the decoder has a path leaving them nil")
 	r.Assume("uio.Lexer methods stay within bounds for non-negative sizes (sticky error instead of slicing out of range)")
 }
